@@ -134,7 +134,7 @@ def make_unit(repo_dir):
     ff['error'].label = 'ArxmlParser.error'
     fns = [copy_fn for copy_fn in trim.UNIT.fns] + [ff['error'], ff['optional_error'], ff['check_version'],
            FnSpec('parse_character_data', F, impl=IMPL_P, ret='r', body_sub=R36,
-                  ensures=['final(self).strict == old(self).strict',
+                  ensures=['final(self).strict == old(self).strict && final(self).fileversion == old(self).fileversion',
                            'old(self).strict ==> (match r { Ok(v) => accepted(v, *character_data_spec, old(self).fileversion as u32), Err(_) => true })'],
                   proofs=[dict(at='body_start', text=chardata.BV),
                           dict(after=r'let trimmed_input = trim_byte_string\(input\);', text='proof { assert(trimmed_input@.len() == trimmed_input.len() && trimmed_input.len() <= usize::MAX); }')])]
